@@ -93,8 +93,15 @@ def classify_delimited_comment_text(iToken, lObjects, oOptions):
 
 
 def merge_text_tokens(lObjects):
-    iStartIndex, iEndIndex = find_start_and_end_index_of_text_tokens(lObjects)
-    merge_tokens(iStartIndex, iEndIndex, lObjects)
+    # Merge each run of consecutive text tokens; code between two delimited comments on one line is not comment text
+    iIndex = 0
+    while iIndex < len(lObjects):
+        if isinstance(lObjects[iIndex], token.text):
+            iEndIndex = iIndex
+            while iEndIndex + 1 < len(lObjects) and isinstance(lObjects[iEndIndex + 1], token.text):
+                iEndIndex += 1
+            merge_tokens(iIndex, iEndIndex, lObjects)
+        iIndex += 1
 
 
 def find_start_and_end_index_of_text_tokens(lObjects):
